@@ -146,7 +146,7 @@ func (v variant) load(rows []pred.Row) {
 			t = *r.T
 		}
 		_, err = H.SQL.Exec("INSERT INTO "+v.table+"(id,a,b,s,t,mark,"+v.col+") VALUES (?,?,?,?,?,0,"+v.liveLit()+"),(?,?,?,?,?,0,?)",
-			r.ID, r.A, b, r.S, t, r.ID+twinOff, r.A, b, r.S, t, delTime)
+			r.ID, r.A, b, r.S, t, twinOf(r.ID), r.A, b, r.S, t, delTime)
 		must(err)
 	}
 }
@@ -158,7 +158,7 @@ func (v variant) ints(q string, args ...interface{}) []int64 {
 func withTwins(ids []int64) []int64 {
 	out := append([]int64(nil), ids...)
 	for _, id := range ids {
-		out = append(out, id+twinOff)
+		out = append(out, twinOf(id))
 	}
 	sort.Slice(out, func(i, j int) bool { return out[i] < out[j] })
 	return out
@@ -254,7 +254,7 @@ func runVariant(c *core.Ctx, st pred.Style, table []pred.Row) {
 		if !pred.IDsEqual(live, pred.SortIDs(wantLive)) {
 			add("after Delete the live ids are %v, want %v (matches %v marked, nothing else)", live, wantLive, want)
 		}
-		if tw := v.ints("SELECT count(*) FROM $T WHERE id >= ? AND $C = ?", twinOff, delTime)[0]; tw != int64(len(table)) {
+		if tw := v.ints("SELECT count(*) FROM $T WHERE id > 100 AND id < 200 AND $C = ?", delTime)[0]; tw != int64(len(table)) {
 			add("Delete touched rows that were already marked: %d of %d twins kept their mark time", tw, len(table))
 		}
 		// a repeated delete finds nothing to mark
@@ -274,7 +274,7 @@ func runVariant(c *core.Ctx, st pred.Style, table []pred.Row) {
 		}
 		var wantLeft []int64
 		for _, rw := range table {
-			for _, id := range []int64{rw.ID, rw.ID + twinOff} {
+			for _, id := range []int64{rw.ID, twinOf(rw.ID)} {
 				if !gone[id] {
 					wantLeft = append(wantLeft, id)
 				}
@@ -282,6 +282,46 @@ func runVariant(c *core.Ctx, st pred.Style, table []pred.Row) {
 		}
 		if !pred.IDsEqual(left, pred.SortIDs(wantLeft)) {
 			add("after Unscoped Delete the table holds ids %v, want %v", left, wantLeft)
+		}
+	}
+	// a finisher that reads and then writes on its own: FirstOrCreate with Assign stores the value in the record it
+	// found, which is the lowest key among the rows the handle sees (with Unscoped possibly a marked one)
+	if len(want) > 0 {
+		hasOr := false
+		for _, s := range cc.steps {
+			hasOr = hasOr || s.Op == "or"
+		}
+		for _, uns := range []bool{false, true} {
+			v.load(table)
+			db, vis, name := root, want, "FirstOrCreate+Assign"
+			if uns {
+				db, vis, name = root.Unscoped(), withTwins(want), "Unscoped FirstOrCreate+Assign"
+			}
+			dest := newPtr()
+			res := build(cc, db).Assign(map[string]interface{}{"mark": 7}).FirstOrCreate(dest)
+			if res.Error != nil {
+				add("%s error: %v", name, res.Error)
+				continue
+			}
+			if id := reflect.ValueOf(dest).Elem().FieldByName("ID").Int(); id != vis[0] {
+				add("%s returned id %d, want %d: the rows this handle sees and the chain selects are %v", name, id, vis[0], vis)
+			}
+			got := v.ints("SELECT id FROM $T WHERE mark = 7 ORDER BY id")
+			stored := false
+			for _, id := range got {
+				stored = stored || id == vis[0]
+			}
+			if !stored || (!hasOr && len(got) != 1) {
+				add("%s found record %d, the assigned value is stored in rows %v (RowsAffected=%d)", name, vis[0], got, res.RowsAffected)
+			}
+			if cnt := v.ints("SELECT count(*) FROM $T")[0]; cnt != total {
+				add("%s: %d rows stored, were %d", name, cnt, total)
+			}
+			if !uns {
+				if tw := v.ints("SELECT count(*) FROM $T WHERE id > 100 AND id < 200 AND mark = 0 AND $C = ?", delTime)[0]; tw != int64(len(table)) {
+					add("%s touched rows that were marked: %d of %d twins unchanged", name, tw, len(table))
+				}
+			}
 		}
 	}
 	c.Inc("variant_batteries")
